@@ -213,7 +213,9 @@ def run_zip(ctx):
         mk.append(("jwe.enc_cek", {"jwe": {"protected": {"enc": "A128GCM"}}, "cek": cek, "pt": rng.randbytes(n).hex(), "rand": "11" * 12, "_zip": None}))
         mk.append(("jwe.enc_cek", {"jwe": {"protected": {"enc": "A128GCM"}, "unprotected": {"zip": "DEF"}}, "cek": cek, "pt": rng.randbytes(n).hex(),
                                    "rand": "11" * 12, "_zip": "unprotected"}))
-    for n in range(target - 80, target - 20, 1 if ctx.tier == "thorough" else 3):
+    # (deflate adds a small constant to incompressible input: every length in the window, so that the text lengths MAXC-1,
+    #  MAXC and MAXC+1 all occur - in both tiers)
+    for n in list(range(target - 80, target - 20, 1 if ctx.tier == "thorough" else 3)) + list(range(target - 40, target - 22)):
         mk.append(("jwe.enc_cek", {"jwe": {"protected": {"enc": "A128GCM", "zip": "DEF"}}, "cek": cek, "pt": rng.randbytes(n).hex(), "rand": "11" * 12,
                                    "_zip": "protected"}))
     # a highly compressible plaintext far above the limit whose ciphertext is tiny: must decrypt
@@ -343,7 +345,14 @@ def run_sizes(ctx):
             if n > KEYMAX and "GCMKW" not in w:     # AES-GCM key wrapping streams through heap buffers: no fixed buffer, no bound
                 x["_must_refuse"] = True
             ops.append(("jwe.enc_jwk", x))
-    cmp(ctx, ops, p_refuse, mask_enc)
+    real_, model_ = cmp(ctx, ops, p_refuse, mask_enc)
+    # what was wrapped within the bound unwraps again (the consuming side's bound is not tighter than the producing one)
+    back = []
+    for (o, a), r in zip(ops, real_):
+        if o == "jwe.enc_jwk" and r.get("ok") and a.get("_site") == "size:wrapped-cek":
+            back.append(("jwe.dec_jwk", lim({"jwe": r["jwe"], "jwk": a["jwk"], "rand": "00" * 64, "_must_accept": True, "_site": "size:wrapped-cek",
+                                             "_why": a["_why"] + ", unwrapped again"})))
+    cmp(ctx, back, p_refuse, mask_enc)
     # members of tokens: encrypted_key, apu, apv, epk.x
     mk = [("jwe.enc", {"jwe": {"protected": {"alg": "A128KW", "enc": "A128GCM"}}, "jwk": pool["oct-16"], "pt": "00", "rand": rng.randbytes(120).hex()}),
           ("jwe.enc", {"jwe": {"protected": {"alg": "ECDH-ES+A128KW", "enc": "A128GCM"}}, "jwk": pool["EC-P256"], "pt": "00", "rand": rng.randbytes(120).hex()}),
